@@ -263,8 +263,9 @@ def check_case(ltext, klass, segs, rspec, pol, res):
 
 ALIASED_LEFTS = [
     ("base: &x\n  - 1\n  - 2\nweb: *x\nother:\n  - 1\n  - 2\n",
-     ["/web", "/base", "/other"]),
-    ("base: &x\n  a: 1\nweb: *x\nother:\n  a: 1\n", ["/web", "/base"]),
+     ["/web", "/base", "/other", "/*"]),
+    ("base: &x\n  a: 1\nweb: *x\nother:\n  a: 1\n", ["/web", "/base",
+                                                      "/*"]),
     ("list:\n  - &x\n    - 1\n  - *x\nk: 1\n", ["/list[1]", "/list[0]"]),
     ("base: &x\n  - a: 1\n    q: 0\nweb: *x\n", ["/web", "/base"]),
     ("top:\n  base: &x\n    - 2\n  web: *x\nweb:\n  - 2\n",
@@ -333,7 +334,8 @@ def run_shard(shard):
                         n += 1
                         if n % shard["parts"] != shard["part"]:
                             continue
-                        check_case(ltext, "existing", segs, rspec,
+                        check_case(ltext, "multi" if ptext == "/*"
+                                   else "existing", segs, rspec,
                                    c05.policy_for(j, with_rules=False), res)
         return res
     if shard["kind"] == "empty-left":
